@@ -191,10 +191,17 @@ def _matrix_texts(libset, cmd):
             args = [a for a in base if a[0] != pname]
             if rk == "extra":
                 args = list(base) + [("BogusParameter", ("int", "1"))]
+            elif rk.startswith("extra-"):
+                continue
             elif rk != "missing":
                 args = args + [(pname, c12._raw(rk))]
             prog = c12._prefix(libset) + [("T", cmd, args)]
             yield "%s.%s<-%s" % (cmd, pname, rk), G.render(G.items_of(prog))[0]
+            # the same ill-typed command with a CONSUMER written ABOVE it: the consumer's reference (with a fuzziness requirement) is looked at
+            # before the command's own arguments have been validated
+            for cons in ((("Z", "FuzzyNot", [("InFieldName", ("bare", "T"))]), ("Z", "CvtToFuzzy", [("InFieldName", ("bare", "T")), ("TrueThreshold", ("int", "1")), ("FalseThreshold", ("int", "0"))]))
+                         if cmd == "EEMSRead" else (("Z", "FuzzyNot", [("InFieldName", ("bare", "T"))]),)):
+                yield "%s.%s<-%s, %s above" % (cmd, pname, rk, cons[1]), G.render(G.items_of([cons] + prog))[0]
     # the same argument name written twice (same value / another value), in the LAST command of the file and in one that others follow
     for pname, val in base:
         for second in (val, ("int", "7")):
@@ -255,7 +262,7 @@ def run(case):
         pnames = sorted({a[0] for a in base} | {"InFieldName", "NewFieldName", "OutFileName"})
         for pname in pnames:
             for rk in c12.RAW_KINDS:
-                if rk in ("extra",):
+                if rk in ("extra",) or rk.startswith("extra-"):
                     continue
                 args = [a for a in base if a[0] != pname]
                 if rk != "missing":
